@@ -44,6 +44,7 @@ fn plan(prop: &str, o: &mut Out) {
         }
         "C04" => {
             g_maxlen_fmt(o, &all);
+            g_edge_fill(o, &all);
             g_long_valid(o, &all);
             g_grid(o, &all);
             g_exp_limits(o);
@@ -83,6 +84,7 @@ fn plan(prop: &str, o: &mut Out) {
             g_from_float(o, &all);
             g_bytes(o);
             g_consts(o);
+            g_edge_fill(o, &all);
             g_frag(o, &["b32", "dyn", "big"]);
         }
         "C06" => {
@@ -140,6 +142,7 @@ fn plan(prop: &str, o: &mut Out) {
                 pats.extend(top_halfword_patterns(o, n, if o.thorough { 7 } else { 257 }));
             }
             pats.extend(wide_big_patterns(o));
+            pats.extend(zero_run_patterns(o));
             g_on_patterns(o, "to_int", &pats, &ints);
         }
         "C12" => g_from_float(o, &all),
@@ -159,6 +162,7 @@ fn plan(prop: &str, o: &mut Out) {
         "C14" => {
             g_frag(o, &all);
             g_maxlen_fmt(o, &all);
+            g_edge_fill(o, &all);
             g_swallow_invalid(o, &all);
         }
         "C15" => {
